@@ -206,33 +206,37 @@ func (e *evaluator) headerKey(m *vmsg, name, value string, strict bool) tri {
 }
 
 func (e *evaluator) seqSet(m *vmsg, set []command.SeqRange) tri {
-	n := uint32(e.v.n())
-	hit := false
+	n := uint64(e.v.n())
+	res := no
 
 	for _, r := range set {
 		lo, hi := uint64(r.Begin), uint64(r.End)
 		if r.Begin.IsAsterisk() {
-			lo = uint64(n)
+			lo = n
 		}
 
 		if r.End.IsAsterisk() {
-			hi = uint64(n)
+			hi = n
 		}
 
-		if n == 0 || lo > uint64(n) || hi > uint64(n) || lo == 0 || hi == 0 {
+		// A member naming a number beyond the view (any number, `*` included, on an empty view) is not a valid
+		// sequence number (RFC 3501 9, seq-number): property C16 demands BAD; what such a member selects if the
+		// command is answered nevertheless is not defined, so it is not judged here.
+		if n == 0 || lo > n || hi > n || lo == 0 || hi == 0 {
 			e.oor = true
+			res = or(res, e.amb("seq-member-beyond-view"))
+
+			continue
 		}
 
 		if lo > hi {
 			lo, hi = hi, lo
 		}
 
-		if uint64(m.Seq) >= lo && uint64(m.Seq) <= hi {
-			hit = true
-		}
+		res = or(res, of(uint64(m.Seq) >= lo && uint64(m.Seq) <= hi))
 	}
 
-	return of(hit)
+	return res
 }
 
 func (e *evaluator) uidSet(m *vmsg, set []command.SeqRange) tri {
